@@ -562,15 +562,16 @@ func ParseType(src string) (t *TypeExpr, err error) {
 // ---------------------------------------------------------------- contract files
 
 type Clause struct {
-	Kind  string // requires | ensures | invariant | lemma | axiom
-	Label string
-	Loop  int // for invariant
-	Src   string
-	E     Expr
-	File  string
-	Line  int
-	Tags  map[string]bool // property ids this clause counts for; empty = the function's props
-	At    string          // ensures only: applies at return statements whose source line contains this text
+	Kind   string // requires | ensures | invariant | lemma | axiom
+	Label  string
+	Loop   int // for invariant
+	Src    string
+	E      Expr
+	File   string
+	Line   int
+	Tags   map[string]bool // property ids this clause counts for; empty = the function's props
+	Before string          // ensures only: applies at return statements above the first line of the function that contains this text
+	At     string          // ensures only: applies at return statements whose source line contains this text
 }
 
 type GhostVar struct {
@@ -599,7 +600,7 @@ type FuncContract struct {
 	Invs     []*Clause
 	Marks    []*Clause
 	Asserts  []*Clause // assert [label] at "source text" expr: checked after the statement on that line
-	Modifies []string // declared frame (heap names / ghost vars); nil = computed
+	Modifies []string  // declared frame (heap names / ghost vars); nil = computed
 	HasMod   bool
 	Trusted  bool // body not verified (listed)
 	Assumed  bool // external / interface method: never has a verified body
@@ -690,6 +691,14 @@ func (cs *ContractSet) ParseContractText(file string, pkgPath string, lines []st
 				}
 				c.At = rest[4 : 4+j]
 				rest = strings.TrimSpace(rest[4+j+1:])
+			}
+			if strings.HasPrefix(rest, "before \"") {
+				j := strings.Index(rest[8:], "\"")
+				if j < 0 {
+					return nil, errf("unterminated before \"...\"")
+				}
+				c.Before = rest[8 : 8+j]
+				rest = strings.TrimSpace(rest[8+j+1:])
 			}
 			c.Src = rest
 			e, err := ParseExpr(rest)
